@@ -69,12 +69,17 @@ def derive_seed(*parts):
 
 # ----------------------------------------------------------------------------- known findings
 def load_known(prop):
-    path = os.path.join(HOME, "known_findings.json")
-    if not os.path.exists(path):
-        return []
-    with open(path) as f:
-        data = json.load(f)
-    return [e for e in data.get("findings", []) if e.get("property") == prop]
+    import glob
+
+    out = []
+    paths = [os.path.join(HOME, "known_findings.json")] + sorted(glob.glob(os.path.join(HOME, "known_findings.d", "*.json")))
+    for path in paths:
+        if not os.path.exists(path):
+            continue
+        with open(path) as f:
+            data = json.load(f)
+        out.extend(e for e in data.get("findings", []) if e.get("property") == prop)
+    return out
 
 
 # ----------------------------------------------------------------------------- ctx
